@@ -13,5 +13,5 @@ P
 [ $? -ne 0 ] && exit 8
 git diff | grep '^[+-]' | grep -v '^+++\|^---'
 cd /verif
-for chk in $chks; do bin/vcheck "$chk" --tier quick 2>&1 | grep -v "^INCONCLUSIVE\|^KNOWN\|^E1002\|^W1002\|^  " | cut -c1-250 | tail -2; done
+for chk in $chks; do VERIF_OUT=/var/tmp/verif_seed_out bin/vcheck "$chk" --tier quick 2>&1 | grep -v "^INCONCLUSIVE\|^KNOWN\|^E1002\|^W1002\|^  " | cut -c1-250 | tail -2; done
 git -C /repo checkout -- .
